@@ -12,6 +12,7 @@ CHECKS = {
     "C06": ("harness.checks.wbicfam", "model_checking"),
     "C07": ("harness.checks.wbmemfam", "model_checking"),
     "C08": ("harness.checks.axilicfam", "model_checking"),
+    "C10": ("harness.checks.axiburstfam", "model_checking"),
     "C11": ("harness.checks.timeoutfam", "model_checking"),
     "C13": ("harness.checks.socalloc", "model_checking"),
     "C15": ("harness.checks.eventfam", "model_checking"),
